@@ -456,8 +456,10 @@ package syntax
 //@   requires CursorOK(p)
 //@   modifies p.currentPos
 //@   ensures CursorOK(p) && old(p.currentPos) <= p.currentPos && 0 <= n && n <= 2147483647
+//@   ensures[progress] err == nil && old(p.currentPos) < len(p.pattern) && '0' <= p.pattern[old(p.currentPos)] && p.pattern[old(p.currentPos)] <= '9' ==> p.currentPos > old(p.currentPos)
 //@   loop 0:
 //@     invariant CursorOK(p) && old(p.currentPos) <= p.currentPos && 0 <= i && i <= 2147483647 && p.pattern == old(p.pattern)
+//@     invariant p.currentPos == old(p.currentPos) ==> i == 0
 //@     decreases len(p.pattern) - p.currentPos
 
 //@ func (p *parser) scanWord() (s string)
@@ -470,23 +472,24 @@ package syntax
 //@     decreases len(p.pattern) - p.currentPos
 
 //@ func (p *parser) scanECMACapname() (s string, err error)
-//@   trusted builds the name with strings.Builder (outside the modelled subset); assumed to keep the cursor inside the pattern
+//@   trusted builds the name with strings.Builder (outside the modelled subset); assumed to keep the cursor inside the pattern and not to move it backwards
 //@   requires CursorOK(p)
 //@   modifies p.currentPos
-//@   ensures CursorOK(p)
+//@   ensures CursorOK(p) && old(p.currentPos) <= p.currentPos
 
 //@ func (p *parser) scanCapname() (s string, err error)
 //@   props C10
 //@   requires CursorOK(p)
 //@   modifies p.currentPos
-//@   ensures CursorOK(p)
+//@   ensures CursorOK(p) && old(p.currentPos) <= p.currentPos
 
 //@ func newRegexNodeCh(t NodeType, opt RegexOptions, ch rune) (n *RegexNode)
-//@   trusted node constructor; under IgnoreCase it builds a case-closed class through addCaseEquivalences, which is not under contract
+//@   trusted node constructor; under IgnoreCase it builds a case-closed class through addCaseEquivalences, which is not under contract. A '$' has no case, so the node is returned as built.
 //@   ensures n != nil
+//@   ensures ch == '$' ==> n.T == t && n.Ch == ch
 //@ func newRegexNodeM(t NodeType, opt RegexOptions, m int) (n *RegexNode)
-//@   props C10
-//@   ensures n != nil
+//@   props C10 C09
+//@   ensures n != nil && n.T == t && n.M == m
 
 //@ func (p *parser) scanDollar() (n *RegexNode, err error)
 //@   props C10 C09
@@ -495,6 +498,9 @@ package syntax
 //@   modifies p.currentPos
 //@   ensures CursorOK(p)
 //@   ensures[result] err == nil ==> n != nil
+// a '$' that starts no recognised form is kept as a literal '$' and nothing after it is consumed ('$$' consumes the second '$')
+//@   ensures[literal] err == nil && n.T == NtOne ==> n.Ch == '$' && (p.currentPos == old(p.currentPos) || (p.currentPos == old(p.currentPos) + 1 && old(p.currentPos) < len(p.pattern) && p.pattern[old(p.currentPos)] == '$'))
+//@   ensures[ref]     err == nil && n.T != NtOne ==> n.T == NtRef && p.currentPos > old(p.currentPos)
 //@   loop 0:
-//@     invariant CursorOK(p) && p.pattern == old(p.pattern) && 0 <= newcapnum && newcapnum <= 2147483647 && 0 <= lastEndPos && lastEndPos <= len(p.pattern) && 0 <= backpos && backpos <= len(p.pattern)
+//@     invariant CursorOK(p) && p.pattern == old(p.pattern) && backpos == old(p.currentPos) && backpos < p.currentPos && backpos <= lastEndPos && (capnum >= 0 ==> lastEndPos > backpos) && 0 <= newcapnum && newcapnum <= 2147483647 && 0 <= lastEndPos && lastEndPos <= len(p.pattern) && 0 <= backpos && backpos <= len(p.pattern)
 //@     decreases len(p.pattern) - p.currentPos
